@@ -147,15 +147,15 @@ def encVerdict : Verdict → Json
   | .panicDig => Json.mkObj [("panic", Json.str "dig")]
   | .fuel => Json.str "fuel"
 
-def encEvent : Event → Json
+def encEvent (same : Bool) : Event → Json
   | .enter _ f x args => Json.mkObj [("e", "enter"), ("fn", jn f), ("x", jn x), ("args", Json.arr (args.map encVal).toArray)]
   | .exit _ f x r => Json.mkObj [("e", "exit"), ("fn", jn f), ("x", jn x),
       ("r", Json.str (match r with | .ok => "ok" | .err => "err" | .panic => "panic"))]
-  | .cb op _ _ err rt => Json.mkObj [("e", "cb"), ("op", jn op), ("name", ""),
+  | .cb op _ fn err rt => Json.mkObj [("e", "cb"), ("op", jn op), ("name", if same then Json.str "" else Json.str s!"F{fn}"),
       ("err", match err with | none => Json.str "nil" | some e => encErr e), ("rt", jn rt)]
 
-def encInfo (i : InfoOut) : Json :=
-  Json.mkObj [("id", jn 0),
+def encInfo (same : Bool) (i : InfoOut) : Json :=
+  Json.mkObj [("id", jn (if same then 0 else i.id)),
     ("in", Json.arr (i.ins.map fun (t, n, g, o) => Json.arr #[jn t, Json.str n, Json.str g, Json.bool o]).toArray),
     ("out", Json.arr (i.outs.map fun (t, n, g) => Json.arr #[jn t, Json.str n, Json.str g]).toArray)]
 
@@ -181,16 +181,16 @@ def encDot (g : DGraph) : Json :=
     ("transitive", Json.arr (g.transitive.map encDRes).toArray),
     ("root", Json.arr (g.rootCauses.map encDRes).toArray)]
 
-def encOpRes (rd : OpRes × Option DGraph) : Json :=
+def encOpRes (same : Bool) (rd : OpRes × Option DGraph) : Json :=
   let r := rd.1
-  Json.mkObj [("v", encVerdict r.v), ("ev", Json.arr (r.ev.map encEvent).toArray),
-    ("info", match r.info with | some i => encInfo i | none => Json.null),
+  Json.mkObj [("v", encVerdict r.v), ("ev", Json.arr (r.ev.map (encEvent same)).toArray),
+    ("info", match r.info with | some i => encInfo same i | none => Json.null),
     ("dot", match rd.2 with | some g => encDot g | none => Json.null)]
 
 def isFuel : Verdict → Bool | .fuel => true | _ => false
 
-def encTrace (rs : List (OpRes × Option DGraph)) : Json :=
-  Json.mkObj [("ops", Json.arr (rs.map encOpRes).toArray),
+def encTrace (same : Bool) (rs : List (OpRes × Option DGraph)) : Json :=
+  Json.mkObj [("ops", Json.arr (rs.map (encOpRes same)).toArray),
     ("fatal", if rs.any (fun r => isFuel r.1.v) then Json.str "fuel" else Json.null)]
 
 /-- K-graph request -/
@@ -212,6 +212,6 @@ def handleLine (line : String) : String :=
     | _ =>
       match decProgram j with
       | .error e => (Json.mkObj [("error", Json.str e)]).compress
-      | .ok p => (encTrace (runProgramV p).2).compress
+      | .ok p => (encTrace p.sameIds (runProgramV p).2).compress
 
 end Dig
